@@ -43,7 +43,7 @@ Fixpoint pass1_loop (first : bool) (count_first : bool) (vlen next last : Z)
     else
       let rows :=
         if first then (if count_first then p_rows st + 1 else p_rows st)
-        else if (next <? psmp + (this_index - pidx)) && (last >=? this_sample) then p_rows st + 1
+        else if (next <? psmp + (this_index - pidx)) && (last >? this_sample) then p_rows st + 1
         else p_rows st in
       let bottom :=
         if (this_sample >? next) && (p_bottom st =? -1) then
@@ -69,7 +69,7 @@ Fixpoint pass2_loop (first : bool) (emit_first : bool) (first_row : Z * Z) (star
   | (this_sample, this_index) :: tl =>
     let here :=
       if first then (if emit_first then [first_row] else [])
-      else if (next <? psmp + (this_index - pidx)) && (last >=? this_sample)
+      else if (next <? psmp + (this_index - pidx)) && (last >? this_sample)
            then [(this_sample + start, this_index - sw)] else [] in
     here ++ pass2_loop false emit_first first_row start sw next last tl this_index this_sample
   end.
